@@ -217,6 +217,9 @@ def obligations(tier: str):
         pipe("tree_f5ctx_mutate", fixture="f5ctx", rep="tree", decider="grow", max_depth=2, ops=["mutate"], fuel=40)
     pipe("tree_f5_RD_mutate", fixture="f5", grammar_fn="g_RD", rep="tree", decider="grow", max_depth=2, ops=["mutate"])
     pipe("tree_f2_create", fixture="f2", rep="tree", decider="grow", max_depth=2)
+    for v in ("UI", "LL", "ND", "TL"):
+        pipe(f"tree_f14_{v}_create", fixture="f14", grammar_fn="g_" + v, rep="tree", decider="grow", max_depth=2)
+    pipe("ge_f14_create", fixture="f14", rep="ge", decider="grow", max_depth=2, gene_length=5)
     pipe("tree_f3n_create", fixture="f3n", rep="tree", decider="grow", max_depth=3)
     pipe("ge_f3n_create", fixture="f3n", rep="ge", decider="grow", max_depth=3, gene_length=6)
     pipe("tree_f2_crossover", fixture="f2", rep="tree", decider="grow", max_depth=2, ops=["crossover"]) if T else None
